@@ -316,9 +316,15 @@ def extract(s, c0, c1, ncall_pred):
         for by in (0, 1):
             m = {l: (ir.TRUE if ((bx if ax == 'x' else by) == 0) == zero_means_true else ir.FALSE) for l, (ax, zero_means_true) in lits.items()}
             case = {k: const_fold(subst(step[k], m)) for k in ('D', 'X', 'Y')}
-            dd = ir.to_poly(case['D'], 'int', atomize=atomize, width=64) - Dp
+            dfull = ir.to_poly(case['D'], 'int', atomize=atomize, width=64)
+            dd = dfull - Dp
             coef = None
-            if not dd.t:
+            # the position may also be accumulated digit by digit, most significant first: d' = 4*d + q (Horner form of the same
+            # base-4 number, since the levels run from the top down)
+            horner = dfull - Dp * ir.Poly.const(4, 1 << 64)
+            if horner.is_const() and (not horner.t or list(horner.t.values())[0] <= 3) and (bx, by) != (0, 0) or (horner.is_const() and not dd.is_const()):
+                coef = list(horner.t.values())[0] if horner.t else 0
+            elif not dd.t:
                 coef = 0
             elif set(dd.t) == {tuple(sorted((S, S), key=repr))}:
                 coef = list(dd.t.values())[0]
